@@ -233,6 +233,23 @@ void vh_run_case(Ctx &ctx)
     }
     stage("analyse");
     auto analyser = Analyser::create();
+    // now and then the variable of integration (looked up by name: the first variable called t<digits> that is used as
+    // bvar) is marked external and nothing else is: whatever the analyser makes of that, the generated code has to
+    // declare what it uses
+    if (!corner && ctx.index % 7 == 3) {
+        size_t bv = text.find("<bvar><ci>");
+        if (bv != std::string::npos) {
+            std::string tname = text.substr(bv + 10, text.find('<', bv + 10) - bv - 10);
+            for (const auto &c : allComponents(model)) {
+                auto tv = c->variable(tname);
+                if (tv != nullptr) {
+                    analyser->addExternalVariable(AnalyserExternalVariable::create(tv));
+                    stat("voi_marked_external");
+                    break;
+                }
+            }
+        }
+    }
     analyser->analyseModel(model);
     auto am = analyser->model();
     if (am == nullptr || !am->isValid()) {
